@@ -33,8 +33,10 @@ const dissectPkg = "rare/pkg/matchers/dissect"
 func runC12(c *Ctx, r *Report) {
 	c12Fold(c, r)
 	c12Advance(c, r)
+	c12NilOnlyOnMiss(c, r)
 	c12Offsets(c, r)
 	c02IntPool(c, r, "C12-d")
+	c05FreshInstance(c, r, "C12-d/fresh-instance")
 }
 
 // byteFoldFuncs: functions of the package with signature func(byte) byte.
@@ -230,6 +232,8 @@ func c12Advance(c *Ctx, r *Report) {
 		return
 	}
 	info := fi.Pkg.TypesInfo
+	searchRebase(c, r, "C12-b/search-rebase", fi)
+	r.Floor("C12-b/search-rebase", 1, "the delimiter search inside str[start:]")
 	var loop *ast.RangeStmt
 	ast.Inspect(fi.Decl.Body, func(n ast.Node) bool {
 		if rs, ok := n.(*ast.RangeStmt); ok && loop == nil {
@@ -606,6 +610,8 @@ func c17Splitter(c *Ctx, r *Report) {
 	if n == 0 {
 		r.Bad(rule, fi.Name, "advance", c.Pos(fi.Decl.Pos()), "the splitter never advances past a found delimiter")
 	}
+	searchRebase(c, r, "C17-b/search-rebase", fi)
+	r.Floor("C17-b/search-rebase", 1, "the suffix search of Splitter.Next")
 	r.Floor(rule, 1, "Splitter.Next")
 }
 
@@ -728,4 +734,179 @@ func c17NegativeIndex(c *Ctx, r *Report) {
 		}
 	}
 	r.Floor(rule, 2, "kfArraySelect and kfArraySlice")
+}
+
+// searchRebase: the offset returned by a search inside a suffix X[lo:] is
+// relative to that suffix; before it is used as a position in X it must be
+// re-based by that same lo (r + lo, r += lo). Applies to every search call in
+// fn whose first argument is a slice expression with a non-zero low bound.
+func searchRebase(c *Ctx, r *Report, rule string, fi *FuncInfo) int {
+	info := fi.Pkg.TypesInfo
+	n := 0
+	isSearch := func(ce *ast.CallExpr) bool {
+		name := calleeName(info, ce)
+		if name == "" {
+			if se, ok := ce.Fun.(*ast.SelectorExpr); ok {
+				name = se.Sel.Name
+			} else if id, ok := ce.Fun.(*ast.Ident); ok {
+				name = id.Name
+			}
+		}
+		if !strings.Contains(strings.ToLower(name), "index") {
+			return false
+		}
+		if b, ok := info.TypeOf(ce).Underlying().(*types.Basic); !ok || b.Kind() != types.Int {
+			return false
+		}
+		return len(ce.Args) >= 1
+	}
+	ast.Inspect(fi.Decl.Body, func(x ast.Node) bool {
+		as, ok := x.(*ast.AssignStmt)
+		if !ok || len(as.Lhs) != 1 || len(as.Rhs) != 1 {
+			return true
+		}
+		ce, ok := ast.Unparen(as.Rhs[0]).(*ast.CallExpr)
+		if !ok || !isSearch(ce) {
+			return true
+		}
+		se, ok := ast.Unparen(ce.Args[0]).(*ast.SliceExpr)
+		if !ok || se.Low == nil {
+			return true
+		}
+		if v, isC := constInt(info, se.Low); isC && v == 0 {
+			return true
+		}
+		res := identObj(info, as.Lhs[0])
+		if res == nil {
+			return true
+		}
+		n++
+		lowTxt := exprStr(se.Low)
+		// the low bound must still denote the same value when the result is re-based: it must not mention the result variable
+		selfRef := false
+		ast.Inspect(se.Low, func(y ast.Node) bool {
+			if id, ok := y.(*ast.Ident); ok && info.Uses[id] == res {
+				selfRef = true
+			}
+			return true
+		})
+		rebased := false
+		ast.Inspect(fi.Decl.Body, func(y ast.Node) bool {
+			switch t := y.(type) {
+			case *ast.AssignStmt:
+				if t.Tok == token.ADD_ASSIGN && len(t.Lhs) == 1 && identObj(info, t.Lhs[0]) == res && exprStr(t.Rhs[0]) == lowTxt {
+					rebased = true
+				}
+			case *ast.BinaryExpr:
+				if t.Op == token.ADD {
+					// any + chain that contains both the result and the low bound
+					var terms []ast.Expr
+					var flat func(e ast.Expr)
+					flat = func(e ast.Expr) {
+						e = ast.Unparen(e)
+						if b, ok := e.(*ast.BinaryExpr); ok && b.Op == token.ADD {
+							flat(b.X)
+							flat(b.Y)
+							return
+						}
+						terms = append(terms, e)
+					}
+					flat(t)
+					hasRes, hasLow := false, false
+					for _, tm := range terms {
+						if identObj(info, tm) == res {
+							hasRes = true
+						}
+						if exprStr(tm) == lowTxt {
+							hasLow = true
+						}
+					}
+					if hasRes && hasLow {
+						rebased = true
+					}
+				}
+			}
+			return true
+		})
+		r.Check(rebased && !selfRef, rule, fi.Name, stmtStr(as), c.Pos(as.Pos()), "advance: the offset found inside "+exprStr(se)+" is re-based by "+lowTxt,
+			"the offset returned by the search inside "+exprStr(se)+" is relative to that suffix, but it is never re-based by "+lowTxt+" (or that bound is overwritten by the result): later positions are short by that amount, so elements are cut at the wrong place")
+		return true
+	})
+	return n
+}
+
+// c12NilOnlyOnMiss (C12-b/nil-only-on-miss): by the specification a line fails
+// to match only when the leading literal or some delimiter is not found. Every
+// `return nil` of FindSubmatchIndex must therefore sit under the fact that the
+// result of an index search is negative.
+func c12NilOnlyOnMiss(c *Ctx, r *Report) {
+	const rule = "C12-b/nil-only-on-miss"
+	fi := c.MustFunc(r, rule, dissectPkg, "(*DissectInstance).FindSubmatchIndex")
+	if fi == nil {
+		return
+	}
+	info := fi.Pkg.TypesInfo
+	vi := analyseVars(info, fi.Decl)
+	fg := NewFGraph(fi.Decl.Body, info)
+	fg.SolveFacts(vi)
+	// variables assigned from a search call (callee or selector name contains "index", int result)
+	searchVars := map[types.Object]bool{}
+	ast.Inspect(fi.Decl.Body, func(x ast.Node) bool {
+		as, ok := x.(*ast.AssignStmt)
+		if !ok || len(as.Lhs) != 1 || len(as.Rhs) != 1 {
+			return true
+		}
+		ce, ok := ast.Unparen(as.Rhs[0]).(*ast.CallExpr)
+		if !ok {
+			return true
+		}
+		name := calleeName(info, ce)
+		if name == "" {
+			if se, ok := ce.Fun.(*ast.SelectorExpr); ok {
+				name = se.Sel.Name
+			}
+		}
+		if strings.Contains(strings.ToLower(name), "index") {
+			if o := identObj(info, as.Lhs[0]); o != nil {
+				searchVars[o] = true
+			}
+		}
+		return true
+	})
+	n := 0
+	inspectNoLit(fi.Decl.Body, func(x ast.Node) bool {
+		rs, ok := x.(*ast.ReturnStmt)
+		if !ok || len(rs.Results) != 1 {
+			return true
+		}
+		if id, ok := ast.Unparen(rs.Results[0]).(*ast.Ident); !ok || id.Name != "nil" {
+			return true
+		}
+		n++
+		miss := false
+		for _, f := range fg.FactsAtPos(rs.Pos()) {
+			be, ok := ast.Unparen(f.Cond).(*ast.BinaryExpr)
+			if !ok || f.Tag != nil {
+				continue
+			}
+			o := identObj(info, be.X)
+			if o == nil || !searchVars[o] {
+				continue
+			}
+			v, isC := constInt(info, be.Y)
+			if !isC {
+				continue
+			}
+			switch {
+			case be.Op == token.LSS && v == 0 && f.Truth, be.Op == token.GEQ && v == 0 && !f.Truth,
+				be.Op == token.EQL && v == -1 && f.Truth, be.Op == token.NEQ && v == -1 && !f.Truth,
+				be.Op == token.LEQ && v == -1 && f.Truth, be.Op == token.GTR && v == -1 && !f.Truth:
+				miss = true
+			}
+		}
+		r.Check(miss, rule, fi.Name, "return nil", c.Pos(rs.Pos()), "guard: no match only where a literal was searched for and not found",
+			"FindSubmatchIndex reports 'no match' on a path that is not a failed search for the leading literal or a delimiter (e.g. a length pre-check): lines the specification matches - such as lines whose captures are empty - are rejected")
+		return true
+	})
+	r.Floor(rule, 2, "prefix miss and delimiter miss")
 }
